@@ -284,9 +284,11 @@ std::string guarded(F f, bool safetyOnly){
 }
 
 // scalar readers Data<int>, Data<unsigned int>, Data<double>
+static bool g_prefill = false;
+template<class T> void prefill1(shark::Data<T>& d){ if(g_prefill) shark::csvStringToData(d, "7 8 9 10 11", ',', '#', 2); }
 template<class T>
 std::string runCsv1(std::string const& bytes, char comment, std::size_t maxB, bool safetyOnly){
-	shark::Data<T> data;
+	shark::Data<T> data; prefill1(data);
 	std::string e = guarded([&]{ shark::csvStringToData(data, bytes, ',', comment, maxB); }, safetyOnly);
 	if(!e.empty()) return e;
 	std::ostringstream os, vals; std::size_t n = 0;
@@ -332,7 +334,6 @@ static std::string dropTitle(std::string const& bytes, std::size_t k){
 	return bytes.substr(pos);
 }
 // `reuse <op>`: the dataset object already holds (differently shaped) data when the importer is called
-static bool g_prefill = false;
 template<class D> void prefillU(D& d){ if(g_prefill){ shark::csvStringToData(d, "7,8,9\n10,11,12\n13,14,15\n", ',', '#', 2); } }
 template<class D> void prefillC(D& d){ if(g_prefill){ shark::csvStringToData(d, "3,7,8,9\n0,11,12,1\n5,1,1,1\n", shark::FIRST_COLUMN, ',', '#', 2); } }
 template<class D> void prefillR(D& d){ if(g_prefill){ shark::csvStringToData(d, "3,7,8,9\n0,11,12,1\n5,1,1,1\n", shark::FIRST_COLUMN, 2, ',', '#', 2); } }
